@@ -11,6 +11,7 @@ import (
 	"bytes"
 	"fmt"
 
+	"helm.sh/helm/v4/pkg/kube"
 	release "helm.sh/helm/v4/pkg/release/v1"
 )
 
@@ -67,6 +68,7 @@ func stepOp(w *world, step int) {
 		maxPre = pre[len(pre)-1].Version
 	}
 	firedBefore := len(w.f.fired)
+	logBefore := len(w.kube.log)
 	createdBefore := len(w.store.created)
 	chartV := ndChoice("chart", 2)
 	withHook := ndBool("hook")
@@ -91,6 +93,7 @@ func stepOp(w *world, step int) {
 		inst := NewInstall(w.config())
 		inst.ReleaseName, inst.Namespace = relName, "default"
 		inst.Replace, inst.Atomic, inst.DisableHooks = flag("replace"), flag("atomic"), flag("nohooks")
+		inst.WaitStrategy = waitStrategy(inst.Atomic, step == vBound("depth", 2)-1)
 		err, crashed = w.runOp(func() error { _, e := inst.Run(mkChart(chartV, withHook), map[string]interface{}{}); return e })
 		flags = fmt.Sprintf("replace=%v atomic=%v nohooks=%v", inst.Replace, inst.Atomic, inst.DisableHooks)
 	case 1:
@@ -98,6 +101,7 @@ func stepOp(w *world, step int) {
 		up := NewUpgrade(w.config())
 		up.Namespace = "default"
 		up.Atomic, up.CleanupOnFail, up.DisableHooks = flag("atomic"), flag("cleanup"), flag("nohooks")
+		up.WaitStrategy = waitStrategy(up.Atomic, step == vBound("depth", 2)-1)
 		up.MaxHistory = ndIntRange("maxhist", 0, vBound("maxhist", 2))
 		err, crashed = w.runOp(func() error { _, e := up.Run(relName, mkChart(chartV, withHook), map[string]interface{}{}); return e })
 		flags = fmt.Sprintf("atomic=%v cleanup=%v nohooks=%v maxhist=%d", up.Atomic, up.CleanupOnFail, up.DisableHooks, up.MaxHistory)
@@ -132,6 +136,10 @@ func stepOp(w *world, step int) {
 		// reported success
 		switch kind {
 		case "install", "upgrade", "rollback":
+			if kind != "rollback" && containsStr(flags, "atomic=true") {
+				// --atomic implies --wait: an atomic operation cannot succeed without having checked readiness
+				vAssert("atomic/success-only-after-a-readiness-check", logHas(w.kube.log[logBefore:], "Wait "))
+			}
 			vAssert("success/new-revision-is-highest-and-deployed", len(h) > 0 && h[len(h)-1].Version == maxPre+1 && h[len(h)-1].Info.Status == release.StatusDeployed)
 			if preDeployed != 0 && statusOf(h, preDeployed) != "" {
 				vAssert("success/previous-deployed-is-superseded", statusOf(h, preDeployed) == release.StatusSuperseded)
@@ -147,6 +155,25 @@ func stepOp(w *world, step int) {
 		// C03: a cluster-side failure is contained
 		checkContained(w, kind, pre, h, maxPre, preDeployed, flags)
 	}
+}
+
+// waitStrategy: what the command line passes — hook-only when --wait is not given (the
+// action promotes it itself under --atomic), the status watcher when it is.
+func waitStrategy(atomic bool, lastStep bool) kube.WaitStrategy {
+	// (an explicit --wait on a non-atomic operation is explored for the last operation of a history only)
+	if !atomic && lastStep && ndBool("wait") {
+		return kube.StatusWatcherStrategy
+	}
+	return kube.HookOnlyStrategy
+}
+
+func logHas(log []string, prefix string) bool {
+	for _, l := range log {
+		if len(l) >= len(prefix) && l[:len(prefix)] == prefix {
+			return true
+		}
+	}
+	return false
 }
 
 func ndNativeBool(flags, needle string) bool {
@@ -327,6 +354,18 @@ func hist(depth int, kinds string) {
 	for s := 0; s < depth; s++ {
 		stepOp(w, s)
 	}
+}
+
+// H01Kept: one symbolic operation (with at most one fault) on a history whose
+// newest revision was uninstalled with --keep-history, with and without older
+// revisions underneath: uninstall must purge every revision, install / install
+// --replace / upgrade / rollback keep the ledger well-formed.
+func H01Kept() {
+	w := newWorld(newFaultPlan(vBound("faults", 1), 0, "both"))
+	w.f.budget = 0
+	prepareHistory(w, []int{3, 5}[ndChoice("history", 2)])
+	w.f.budget = vBound("faults", 1)
+	stepOp(w, vBound("depth", 2)-1)
 }
 
 // H01Hist: histories with storage and cluster faults and crashes (C01).
